@@ -429,6 +429,54 @@ Section Roundtrip.
     split; [exact (eac_part_shape _ _ E2)|]. repeat split; reflexivity.
   Qed.
 
+  (* ---------------------------------------------------------------- what to_json writes for the payload pattern *)
+  Lemma remove_first_app s : remove_first ci_prefix (ci_prefix ++ s) = s.
+  Proof. reflexivity. Qed.
+
+  (* the written "payloadRegex" text t is the one from which from_json's rule (prefix "(?i)" iff ignoreCasePayload)
+     rebuilds the filter's pattern; "ignoreCasePayload" is written exactly when the flag is set *)
+  Theorem to_json_payload_regex_inverse f p :
+    loaded_shape f -> f_payload_regex f = Some p ->
+    exists t, jget KPayloadRegex (to_json_kv f) = JStr t /\
+              (if f_ignore_case f then ci_prefix ++ t else t) = p /\
+              jget KIgnoreCasePayload (to_json_kv f) = (if f_ignore_case f then JBool true else JNull) /\
+              jget KPayload (to_json_kv f) = JNull.
+  Proof.
+    intros Hs Hp. destruct Hs as (_ & _ & _ & _ & _ & H & _). unfold payload_shape in H. rewrite Hp in H.
+    destruct H as (_ & Hpre & _ & _).
+    exists (if f_ignore_case f then remove_first ci_prefix p else p).
+    rewrite to_json_kv_fields. tsimp. rewrite Hp.
+    destruct (f_ignore_case f); cbn [opt_if].
+    - repeat split. exact (remove_first_prefix p (Hpre eq_refl)).
+    - repeat split.
+  Qed.
+
+  (* from_json followed by to_json: the "payloadRegex" member is written back verbatim, whatever it starts with and
+     whatever "ignoreCasePayload" says (in particular a pattern with its own leading "(?i)" keeps it) *)
+  Theorem json_payload_regex_text_kept o f s :
+    from_json_kv valid (JObject o) = Some f -> as_str (jget KPayloadRegex o) = Some s ->
+    f_payload_regex f = Some (if f_ignore_case f then ci_prefix ++ s else s) /\
+    jget KPayloadRegex (to_json_kv f) = JStr s /\
+    jget KIgnoreCasePayload (to_json_kv f) = (if f_ignore_case f then JBool true else JNull).
+  Proof.
+    intros Hl Hstr. unfold from_json_kv in Hl.
+    destruct (kind_of_u64 (as_u64 (jget KType o))) as [kind|]; [|discriminate]. cbn [obind] in Hl.
+    destruct (json_id valid o KEcu KEcuIsRegex) as [ecu|]; [|discriminate]. cbn [obind] in Hl.
+    destruct (json_id valid o KApid KApidIsRegex) as [apid|]; [|discriminate]. cbn [obind] in Hl.
+    destruct (json_id valid o KCtid KCtidIsRegex) as [ctid|]; [|discriminate]. cbn [obind] in Hl.
+    destruct (json_payload valid o _) as [[[pa pb] pc]|] eqn:Epl; [|discriminate]. cbn [obind] in Hl.
+    destruct (json_level o KLogLevelMin) as [lmin|]; [|discriminate]. cbn [obind] in Hl.
+    destruct (json_level o KLogLevelMax) as [lmax|]; [|discriminate]. cbn [obind] in Hl.
+    inversion Hl; subst f; clear Hl.
+    rewrite to_json_kv_fields. tsimp.
+    cbn [f_payload_regex f_ignore_case fst snd].
+    unfold json_payload in Epl. rewrite Hstr in Epl. unfold compile_payload_regex in Epl.
+    set (ic := match as_bool (jget KIgnoreCasePayload o) with Some b => b | None => false end) in *.
+    destruct (valid EFancy (if ic then ci_prefix ++ s else s)); [|discriminate].
+    inversion Epl; subst pa pb pc; clear Epl. cbn [fst snd].
+    destruct ic; cbn [opt_if]; repeat split.
+  Qed.
+
   (* a filter that came out of one of the four loaders *)
   Definition loaded (f : filter) : Prop :=
     (exists j, from_json_kv valid j = Some f) \/ (exists d, f = from_dlf_attrs valid d) \/
